@@ -377,6 +377,10 @@ def check_estimators(run, A):
 
 def check(run):
     A = run.A
+    from ..opt import check_optional_truthiness, check_params_reach, check_forwarding
+    check_forwarding(run, A, ('pb_bss.distribution.', 'pb_bss.initializer.'))
+    check_params_reach(run, A, ('pb_bss.distribution.', 'pb_bss.initializer.'))
+    check_optional_truthiness(run, A, ('pb_bss.distribution.', 'pb_bss.initializer.'))
     run.explanation = (
         'EM alternation decided by structural recognition of the seven fit loops on their gated-SSA graphs (iteration domain, one unconditional M-step bound to the '
         'returned variable, one E-step on the current model under `model is not None`, E before M, optional aligner, affiliation flow); saliency / weight_constant_axis / '
